@@ -85,6 +85,7 @@ int main(int argc, char** argv) {
   tf.push_back(fam::make_LC(quick ? 2 : 3, !quick));
   tf.push_back(fam::make_LM(lmbase, lm_maxlen));
   tf.push_back(fam::make_LW());
+  tf.push_back(fam::make_LH(17));
   tf.push_back(fam::make_LX(std::make_shared<std::vector<fam::BaseText>>(fam::base_valid(3, false, 1)), 3));
   // valid grammar texts (on-demand + serialisation agree)
   auto gram = std::make_shared<std::vector<std::string>>(
